@@ -27,10 +27,10 @@ theorem growth_at_limit (a : Arr) (m : Mem) (h : a.AtLimit) : a.expandCapacity m
 
 /-- **every growth step strictly increases the capacity**, whatever `(size_t)(capacity * exp_factor)`
 evaluates to (a product that makes no progress falls back to `capacity + 1`) -/
-theorem growth_strict (a : Arr) (m : Mem) (hinv : a.Inv) (hlive : 0 < m.live) (h : (a.expandCapacity m).1 = .ok) :
+theorem growth_strict (a : Arr) (m : Mem) (hinv : a.Inv) (h : (a.expandCapacity m).1 = .ok) :
     a.capacity < (a.expandCapacity m).2.1.capacity ∧ (a.expandCapacity m).2.1.abs = a.abs ∧
     (a.expandCapacity m).2.1.buf.length = (a.expandCapacity m).2.1.capacity := by
-  obtain ⟨e1, _, _, e4, e5, e6, _⟩ := Arr.expandCapacity_ok a m hinv hlive h
+  obtain ⟨e1, _, _, e4, e5, e6, _⟩ := Arr.expandCapacity_ok a m hinv h
   exact ⟨by rw [e4]; exact e6, e1, by rw [e4, e5]⟩
 
 /-- the requested capacity: the float product when it makes progress, else one more slot -/
@@ -40,10 +40,10 @@ theorem new_capacity_cases (a : Arr) (h : a.capacity < Gen.CC_MAX_ELEMENTS / 2) 
   simp only [h, if_true]
 
 /-- `add` never shrinks the capacity and changes it only when the array is exactly full -/
-theorem add_capacity (a : Arr) (x : Nat) (m : Mem) (hinv : a.Inv) (hlive : 0 < m.live) :
+theorem add_capacity (a : Arr) (x : Nat) (m : Mem) (hinv : a.Inv) :
     a.capacity ≤ (a.add x m).2.1.capacity ∧
     ((a.add x m).2.1.capacity ≠ a.capacity → a.size = a.capacity ∧ a.capacity < (a.add x m).2.1.capacity) := by
-  rcases (Arr.add_spec a x m hinv hlive).1 with ⟨_, _, g⟩ | ⟨_, hsame⟩
+  rcases (Arr.add_spec a x m hinv).1 with ⟨_, _, g⟩ | ⟨_, hsame⟩
   · refine ⟨g.capacity_le, fun hne => ?_⟩
     rcases g.2.2.2.1 with g4 | ⟨g3, g4, g5, _⟩
     · exact absurd g4 hne
@@ -52,28 +52,28 @@ theorem add_capacity (a : Arr) (x : Nat) (m : Mem) (hinv : a.Inv) (hlive : 0 < m
 
 /-- **trim**: on success the capacity is `max size 1`, never below the element count; contents
 unchanged; a refused trim changes nothing -/
-theorem trim_capacity (a : Arr) (m : Mem) (hinv : a.Inv) (hlive : 0 < m.live) :
+theorem trim_capacity (a : Arr) (m : Mem) (hinv : a.Inv) :
     ((a.trimCapacity m).1 = .ok ∧ (a.trimCapacity m).2.1.capacity = max a.size 1 ∧
       (a.trimCapacity m).2.1.size ≤ (a.trimCapacity m).2.1.capacity ∧ (a.trimCapacity m).2.1.abs = a.abs) ∨
     ((a.trimCapacity m).1 = .errAlloc ∧ (a.trimCapacity m).2.1 = a) := by
-  rcases (Arr.trimCapacity_spec a m hinv hlive).1 with ⟨ok, h1, _, h3, h4, _⟩ | ⟨e, _, hsame⟩
+  rcases (Arr.trimCapacity_spec a m hinv).1 with ⟨ok, h1, _, h3, h4, _⟩ | ⟨e, _, hsame⟩
   · exact Or.inl ⟨ok, h3, h4.1, h1⟩
   · exact Or.inr ⟨e, hsame⟩
 
 /-- **O(log n) re-allocations** for a growth function that at least doubles: appending any list of
 `n` elements to an array with `size` elements performs at most `log2 (size + n) + 1` successful
 allocator calls — and not one more, whatever the initial capacity ≥ 1 -/
-theorem appends_realloc_log (a : Arr) (xs : List Nat) (m : Mem) (hinv : a.Inv) (hlive : 0 < m.live)
+theorem appends_realloc_log (a : Arr) (xs : List Nat) (m : Mem) (hinv : a.Inv)
     (hd : ∀ c, 2 * c ≤ a.grow c) :
     (a.addAll xs m).2.nalloc - m.nalloc ≤ Nat.log2 (a.size + xs.length) + 1 :=
-  (Arr.addAll_realloc_log a xs m hinv hlive hd).1
+  (Arr.addAll_realloc_log a xs m hinv hd).1
 
 /-- **`trim_minimum`**: the documented minimum `max size 1`, never below the element count, content
 and size untouched, whatever the capacity was -/
-theorem trim_minimum (a : Arr) (m : Mem) (hinv : a.Inv) (hlive : 0 < m.live) (hok : (a.trimCapacity m).1 = .ok) :
+theorem trim_minimum (a : Arr) (m : Mem) (hinv : a.Inv) (hok : (a.trimCapacity m).1 = .ok) :
     (a.trimCapacity m).2.1.capacity = max a.size 1 ∧ a.size ≤ (a.trimCapacity m).2.1.capacity ∧
     (a.trimCapacity m).2.1.abs = a.abs ∧ (a.trimCapacity m).2.1.size = a.size ∧ (a.trimCapacity m).2.1.Inv := by
-  rcases (Arr.trimCapacity_spec a m hinv hlive).1 with ⟨_, h1, h2, h3, h4, _⟩ | ⟨e, _⟩
+  rcases (Arr.trimCapacity_spec a m hinv).1 with ⟨_, h1, h2, h3, h4, _⟩ | ⟨e, _⟩
   · exact ⟨h3, by rw [h3]; omega, h1, h2, h4⟩
   · rw [e] at hok; simp at hok
 
@@ -81,19 +81,19 @@ theorem trim_minimum (a : Arr) (m : Mem) (hinv : a.Inv) (hlive : 0 < m.live) (ho
 that never refuses, with a growth function that at least doubles and stays below the byte-size limit,
 `n` appends leave exactly the abstract process's size and capacity and perform exactly its number of
 buffer allocations — hence at most `log2 (size + n) + 1` -/
-theorem appends_is_growth_process (a : Arr) (xs : List Nat) (m : Mem) (hinv : a.Inv) (hlive : 0 < m.live)
+theorem appends_is_growth_process (a : Arr) (xs : List Nat) (m : Mem) (hinv : a.Inv)
     (hs : m.sched = []) (hd : ∀ c, 2 * c ≤ a.grow c) (hb : ∀ c, a.grow c ≤ Gen.CC_MAX_ELEMENTS / 8) :
     (a.addAll xs m).1.size = (Growth.appends a.grow a.size a.capacity xs.length).size ∧
     (a.addAll xs m).1.capacity = (Growth.appends a.grow a.size a.capacity xs.length).cap ∧
     (a.addAll xs m).2.nalloc - m.nalloc = (Growth.appends a.grow a.size a.capacity xs.length).reallocs ∧
     (Growth.appends a.grow a.size a.capacity xs.length).reallocs ≤ Nat.log2 (a.size + xs.length) + 1 := by
-  obtain ⟨h1, h2, h3⟩ := Arr.addAll_eq_appends xs a m hinv hlive hs hd hb
+  obtain ⟨h1, h2, h3⟩ := Arr.addAll_eq_appends xs a m hinv hs hd hb
   exact ⟨h1, h2, by omega, Growth.reallocs_le_log a.grow hd a.size a.capacity xs.length hinv.1 hinv.2.2.1⟩
 
 /-- the stack inherits all of it: push = add -/
-theorem stack_push_capacity (s : Stack) (x : Nat) (m : Mem) (hinv : s.Inv) (hlive : 0 < m.live) :
+theorem stack_push_capacity (s : Stack) (x : Nat) (m : Mem) (hinv : s.Inv) :
     s.v.capacity ≤ (s.push x m).2.1.v.capacity ∧ (s.push x m).2.1.v.size ≤ (s.push x m).2.1.v.capacity := by
-  rcases (Arr.add_spec s.v x m hinv hlive).1 with ⟨_, _, g⟩ | ⟨_, hsame⟩
+  rcases (Arr.add_spec s.v x m hinv).1 with ⟨_, _, g⟩ | ⟨_, hsame⟩
   · exact ⟨g.capacity_le, g.2.1⟩
   · simp only [Stack.push]; rw [hsame]; exact ⟨Nat.le_refl _, hinv.1⟩
 
